@@ -363,6 +363,31 @@ def run(ctx):
         if what is not None:
             ctx.violation('%s/%s/%s' % (clause, cls, 'NFFT-even' if NFFT % 2 == 0 else 'NFFT-odd'), '%s (%s, NFFT=%d): %s' % (cls, clause, NFFT, what), rep)
 
+    # ---------------- every NAMED taper / lag window once per clause (a change may concern one name only; the theorems need a real window,
+    # symmetric for mirror / reversal - which every named window of the library is, C20)
+    for wi, wname in enumerate(E.ALL_WINDOWS):
+        for cls in ('Periodogram', 'pcorrelogram'):
+            for clause in ('shift', 'mirror', 'fold', 'reversal'):
+                if (clause == 'fold' and cls not in ONESIDED_IS_TWICE_HALF) or (clause == 'reversal' and cls not in TIME_REVERSAL_INVARIANT):
+                    continue
+                N = 24 + (wi % 7); NFFT = [N, N + 3, 2 * N][wi % 3]
+                x, kind = E.gen_data(rng, N, True)
+                cfg = {'window': wname} if cls == 'Periodogram' else {'lag': 5 + wi % 4, 'window': wname}
+                if cls == 'pcorrelogram':
+                    NFFT = max(NFFT, 2 * cfg['lag'] + 2)
+                SBF[0] = False; m = 3
+                ctx.count('windows/%s/%s' % (clause, cls))
+                ctx.case(('window', clause, cls, wname, NFFT, x.tobytes()), nontrivial=True,
+                         sample={'clause': clause, 'estimator': cls, 'window': wname, 'N': N, 'NFFT': NFFT} if wi == 9 else None)
+                rep = {'clause': clause, 'estimator': cls, 'cfg': jcfg(cfg), 'NFFT': NFFT, 'm': m, 'x': vlib.hexv(x), 'datatype': 'real' if clause == 'fold' else 'complex',
+                       'route': 'fresh', 'scale_by_freq': False}
+                try:
+                    what = check_case(clause, cls, x, cfg, NFFT, m)
+                except Exception as e:
+                    what = 'raised %s: %s' % (type(e).__name__, str(e)[:100])
+                if what is not None:
+                    ctx.violation('%s/%s/window_%s' % (clause, cls, wname), '%s with window %r (%s, NFFT=%d): %s' % (cls, wname, clause, NFFT, what), rep)
+
     # ---------------- arma_estimate (the model of C15, which the arma_estimate / parma theorems are about) at modulated inputs:
     # x_n * tw4(-(m n)) is built inside Coq from the low-bit data, the implementation gets the same Gaussian-integer array
     from props import _c03_arma_corr as AC
